@@ -23,15 +23,28 @@ Theorem c05_inv_init : Inv tags_empty.
 Proof. exact inv_empty. Qed.
 Print Assumptions c05_inv_init.
 
-(* each operation does exactly what the reference list does whenever the property constrains it
-   (spec_step is Some: adding always; removing, setting and counting as long as no element other
-   than the first is empty): same return value, stored bytes = encoding of the new list *)
+(* each operation does exactly what the reference list does: same return value, stored bytes = encoding of the
+   new list.  spec_step is total (adding, removing, setting and counting are defined on every list, the empty one
+   and those holding empty elements included - findings F44 and F50), so this constrains EVERY step ... *)
 Theorem c05_step_refines : forall s l o l' r,
   wf_tags l -> t_bytes s = enc l -> t_len s = zlen (enc l) -> wf_op o ->
   spec_step c_TAG_SSID c_TAG_DS_PARAMETER l o = Some (l', r) ->
   exists s', step s o = Done (s', r) /\ t_bytes s' = enc l' /\ t_len s' = zlen (enc l').
 Proof. exact step_refines. Qed.
 Print Assumptions c05_step_refines.
+
+(* ... which the next two statements make explicit: the reference step is never None, and every step of the C
+   functions on every well-formed list is the reference step (no escape) *)
+Theorem c05_spec_total : forall l o, exists l' r, spec_step c_TAG_SSID c_TAG_DS_PARAMETER l o = Some (l', r).
+Proof. exact spec_step_total. Qed.
+Print Assumptions c05_spec_total.
+
+Theorem c05_step_refines_total : forall s l o,
+  wf_tags l -> t_bytes s = enc l -> t_len s = zlen (enc l) -> wf_op o ->
+  exists s' l' r, spec_step c_TAG_SSID c_TAG_DS_PARAMETER l o = Some (l', r) /\
+    step s o = Done (s', r) /\ wf_tags l' /\ t_bytes s' = enc l' /\ t_len s' = zlen (enc l').
+Proof. exact step_refines_total. Qed.
+Print Assumptions c05_step_refines_total.
 
 (* the encoding determines the list: 'bytes = enc l' pins down every element, so nothing else changed *)
 Theorem c05_enc_injective : forall l1 l2, wf_tags l1 -> wf_tags l2 -> enc l1 = enc l2 -> l1 = l2.
